@@ -38,7 +38,7 @@ CLAIMED = {
               '(deadlock query), nothing touches a waiter after its release (lifetime query).', 'DESIGN.md 3, 5/C02', T_E2),
     'C03': e2('(a) Lock-free core (E2, happens-before over all SC interleavings): resolver against poller / callback subscriber / blocking wait / coroutine protocol / has_value, two resolvers, and the mutex contention '
               'scenarios whose critical section writes plain cells (incl. an owner that hands over to a request registered earlier while another thread requests), the generic awaiter chain (registering threads against the collecting thread) and two threads on one reusable_storage_mtsafe: no pair of conflicting accesses with a non-atomic member is unordered by C++20 happens-before (release/acquire, release sequences, fences). '
-              '(b) Lock discipline (E1, -DVF_DISCIPLINE): in every history of 3 (thorough 4) operations on queue, limited_queue, scheduler (manual mode) and publisher, every access to the component object and to heap '
+              '(b) Lock discipline (E1, -DVF_DISCIPLINE): in every history of 3 (thorough 4) operations on queue, limited_queue, scheduler (manual mode) and publisher (quick tier: a third of the limited_queue and a quarter of the publisher histories, selected by a checksum, plus all publisher histories that start with two publishes), every access to the component object and to heap '
               'blocks allocated under its lock happens with the lock held; the same for the thread_pool object (unit disc_pool, cooperative thread model of C11: submissions, workers, stop(), state queries also through thread_pool::current, co_await thread_pool::current()). Non-SC executions are outside.', 'DESIGN.md 3.3, 3.7, 5/C03',
               T_E2.replace('sequential-consistency encoding', 'sequential-consistency encoding plus C++20 happens-before as vector clocks (data-race query)') + ' ; lock discipline: ' + T_E1, engine='E1+E2'),
     'C04': e1('16 start modes (detach discarded / awaited, start(), start(promise) live / claimed, co_await from a parent, join(), future<T>(coro), returned as future<T>, never started; normal and coroutine mode) x 7 completion modes '
@@ -53,13 +53,13 @@ CLAIMED = {
     'C07': e2('Contenders of every flavour (try_lock, blocking lock().wait(), coroutine protocol) and release flavour (ownership destructor, release() discarded, release()+clear()) on one mutex, owner releasing while a '
               'request is in flight and free-mutex contention: no two parties in the critical section, each request granted exactly once, a waiter told "not suspended" is never resumed as well, suspended '
               'waiters resumed exactly once, library asserts, lifetime of the awaiter/frame, no thread blocked forever, mutex lockable again.', 'DESIGN.md 3, 5/C07', T_E2),
-    'C08': e2('Sequential units (E1): for every N<=3 (thorough 4) queued coroutines and every release style of owner and waiters, grant order = arrival order, every request granted, try_lock fails while held and succeeds '
+    'C08': e2('Sequential units (E1): for every N<=3 (thorough 4) queued coroutines and every release style of owner and waiters (quick tier: N=3 every sixth style combination), grant order = arrival order, every request granted, try_lock fails while held and succeeds '
               'afterwards; the same with 1..2 requests that arrive while an earlier waiter owns the mutex and older ones are still queued (fifo_late). Concurrent units (E2): the C07 scenarios (orphaned lock / lost request / deadlock queries) and, in the thorough tier, owner + two requesters whose arrival order is fixed by a hand-shake: '
               'grant order must equal arrival order in every interleaving.', 'DESIGN.md 5/C08', T_E1 + ' ; ' + T_E2, engine='E1+E2'),
     'C09': e1('Every history over {push(v), pop, unblock_pop(e)} up to the stated length, then destruction, for queue<int>, queue<void>, a single_item_queue consumer variant and a real consumer coroutine: '
               'the real queue agrees with a FIFO-pair reference model after every step (which pop completes, with which value / exception, arrival order of waiters, size()/empty(), never both internal '
               'queues non-empty, cancellation at destruction, allocation balance); values symbolic. Unit q_conc: two operations out of {push, pop, unblock_pop} of two threads interleaved at lock-region granularity. libstdc++ container preconditions (-D_GLIBCXX_ASSERTIONS) are proof obligations.', 'DESIGN.md 3.7, 5/C09', T_E1 + T_INJ),
-    'C10': e1('For every history over {push(v), pop, unblock_push(e), unblock_pop(e)} up to the stated length and limits, and for all pushed values (solver-decided), the real limited_queue<int> agrees with a reference '
+    'C10': e1('For every history over {push(v), pop, unblock_push(e), unblock_pop(e)} up to the stated length and limits (quick tier: limit 2 every second history of length 4), and for all pushed values (solver-decided), the real limited_queue<int> agrees with a reference '
               'model on the state of every push/pop future after every step, on size()/empty(), on which waiter an unblock hits and with which exception, and on cancellation + allocation balance at destruction. Unit h_lq_conc: two operations out of {push, pop, unblock_push} of two threads interleaved at lock-region granularity. libstdc++ container preconditions (-D_GLIBCXX_ASSERTIONS) are proof obligations.',
               'DESIGN.md 2, 3.7, 5/C10', T_E1 + T_INJ),
     'C11': e1('Thread pool under a cooperative thread model (std::thread = table entry run by the harness scheduler, condition_variable::wait parks and unwinds to the scheduler, a notified worker restarts worker() - equivalent because '
@@ -79,7 +79,7 @@ CLAIMED = {
               'immediate failure on a disconnected emitter, allocation balance; unit emit_kinds: every sequence of 3 (thorough 2..4) collector-call flavours. Unit sig_mt (listeners subscribing on another thread): 7 pairs of collector call / coroutine subscription / connect / last-handle destruction, the operation of the second thread placed in front of every atomic instruction of the first (one pre-emption), then a second emission and disconnect: no lost listener, no duplicate, cancellation reaches everybody.', 'DESIGN.md 3.8, 5/C15', T_E1 + T_INJ),
     'C16': e1('Histories over publish one / batch, subscribe recent / at position / by copy, next() polled / blocking-when-due / awaited by a coroutine, kick, leave, close for <=2 subscribers, three subscription modes and '
               'queue configurations unlimited,(1,1),(2,1),(3,2),(5,5) against a reference stream + cursors: all_values contiguous, duplicate-free and in order until a justified first end indication; skipping modes '
-              'strictly forward, skip_to_recent newest; close / destruction wakes parked subscribers; copies continue from the original\'s position; values symbolic; hand-written 5..9 step histories (lag == max, lag > max, slot reuse after a kicked occupant, ...); thorough: one step from every abstract state a breadth-first search reaches within 3 operations. Unit pub_conc: an operation of the publisher thread in front of every mutex acquisition of an awaited next() of the subscriber, caught up (pub_conc) or with one unread value (pub_conc_ahead).', 'DESIGN.md 3.7, 5/C16', T_E1 + T_INJ),
+              'strictly forward, skip_to_recent newest; close / destruction wakes parked subscribers; copies continue from the original\'s position; values symbolic; hand-written 5..9 step histories (lag == max, lag > max, slot reuse after a kicked occupant, ...); thorough: one step from every abstract state a breadth-first search reaches within 3 operations. Unit pub_conc: an operation of the publisher thread in front of every mutex acquisition of an awaited next() of the subscriber, caught up (pub_conc) or with one unread value (pub_conc_ahead); the quick tier decides the all_values configurations unlimited and (2,1) in full and a sixth of the rest, the thorough tier everything.', 'DESIGN.md 3.7, 5/C16', T_E1 + T_INJ),
     'C17': e2('Histories of copy / drop / await (callback awaiter keeping or dropping its own handle, coroutine) / resolve (value, exception, dropped promise) for eight ways of constructing a shared_future<counted>, incl. '
               'default-construct + get_promise() and default-construct + init_if_needed() + copy + get_promise() through the copy: same result for all copies, each awaiter resumed once after resolution, counted value constructed and destroyed once, state freed exactly once and only after '
               'resolution (allocation accounting + use-after-free / double-free obligations). Unit sf_mt (E2, every SC interleaving): copy / drop / await / construction-from-a-promise-taking-function on one thread against the resolving thread.', 'DESIGN.md 3, 5/C17', T_E1 + ' ; ' + T_E2, engine='E1+E2'),
